@@ -137,6 +137,7 @@ inductive Pc
   | doStart | doListed | doPended | doActived | doRolled | doEvicted | doRemoved
   | done
   | createdU  -- variant `pendFirst = false` only: table file created, pending mark not yet set
+  | doLiveL   -- variant `listFirst = false` only: live set collected, directory not yet listed
 deriving DecidableEq, Repr, Inhabited
 
 structure Job where
@@ -167,6 +168,7 @@ structure Cfg where
   pendFirst : Bool := true   -- family.newTableBuilder marks the number pending BEFORE it creates the table file
   closeCAS : Bool := true    -- snapshot.Close is guarded by closed.CompareAndSwap(false, true)
   getReaderAtomic : Bool := true -- storeCache.GetReader looks up, opens and retains in ONE critical section
+  listFirst : Bool := true   -- family.deleteObsoleteFiles lists the directory BEFORE it collects the live set
   threshold : Nat := 2    -- FamilyOption.CompactThreshold
   rollupOn : Bool := false -- StoreOption.Rollup non-empty: a flush marks its output for rollup
   /-- the family's merger (kv.Merger): what a compaction writes for the contents of its inputs.
@@ -404,6 +406,18 @@ def doRollup (s : St) (j : Nat) : St :=
   let live := b.live ++ (s.ver s.cur).rollup
   s.setJob j { b with live := live, todoDel := b.dlist.filter (fun f => !(live.contains f)), pc := .doRolled }
 
+/-- variant `listFirst = false`: `pendingOutputs.Range` is the first thing deleteObsoleteFiles does -/
+def doPendL (s : St) (j : Nat) : St := s.setJob j { s.job j with dlist := [], live := s.pending, pc := .doPended }
+/-- …: `GetLiveRollupFiles()` completes the live set; nothing is listed yet -/
+def doRollupL (s : St) (j : Nat) : St :=
+  s.setJob j { s.job j with live := (s.job j).live ++ (s.ver s.cur).rollup, pc := .doLiveL }
+/-- …: `listDirFunc(familyPath)` AFTER the live set: whatever entered the directory since the
+collections is listed and not live -/
+def doListL (s : St) (j : Nat) : St :=
+  let b := s.job j
+  let dl := sortNat s.disk
+  s.setJob j { b with dlist := dl, todoDel := dl.filter (fun f => !(b.live.contains f)), pc := .doRolled }
+
 def evictFile (s : St) (f : Nat) : St := { s with cref := evict s.cref f }
 /-- `store.evictFamilyFile(n)` = `cache.Evict` -/
 def doEvict (s : St) (j : Nat) (f : Nat) : St := evictFile (setPc s j .doEvicted) f
@@ -464,10 +478,10 @@ def jstep (cfg : Cfg) (s : St) (j : Nat) : Option St :=
       | .decd z => some (snapRemove cfg (setPc s j .oRemoved) b.snap z)
       | _ => none
     | .oRemoved => if (s.snap b.snap).st = .removed then some (snapRel (setPc s j .doStart) b.snap) else none
-    | .doStart => some (doList s j)
+    | .doStart => some (if cfg.listFirst then doList s j else doPendL s j)
     | .doListed => some (doPend s j)
     | .doPended => some (doActive s j)
-    | .doActived => some (doRollup s j)
+    | .doActived => some (if cfg.listFirst then doRollup s j else doRollupL s j)
     | .doRolled | .doRemoved =>
       match b.todoDel with
       | [] => some (jFinish s j)
@@ -478,6 +492,7 @@ def jstep (cfg : Cfg) (s : St) (j : Nat) : Option St :=
       | f :: rest => some (doRemove s j f rest)
     | .done => none
     | .createdU => some (jPendU cfg s j)
+    | .doLiveL => some (doListL s j)
   else none
 
 /-! ### actions and runs -/
@@ -497,7 +512,16 @@ inductive Act
                                  --   not stored the closed flag yet runs `version.Release` again
   | getReaderNoRetain (i f : Nat) -- variant `getReaderAtomic = false` only: GetReader lost the open race and returns the
                                  --   cached reader without `retain()`
+  | env (df dv : Nat)            -- OTHER families of the same store: between two acquisitions of the version-set mutex
+                                 --   by this family they took `df` file numbers and `dv` version ids
 deriving Repr
+
+/-- what the other families of the store do to the state they share with this family: the store's
+`nextFileNumber` and `versionID` counters move on (`NextFileNumber()` / a commit's NextFileNumber
+record / `newVersionID()`), all under the version-set mutex. Their versions, directories, pending
+outputs are their own; their reader-cache entries are keyed by their own (store-unique) table
+numbers. -/
+def envBump (s : St) (df dv : Nat) : St := { s with nextFile := s.nextFile + df, nextVer := s.nextVer + dv }
 
 def cleanFiles (s : St) (fs : List Nat) : St := { s with cref := cleanup s.cref fs }
 
@@ -549,6 +573,12 @@ def step (cfg : Cfg) (s : St) : Act → Option St
         && ((s.ver (s.snap i).ver).nos.contains f) then
       some (s.setSnap i { s.snap i with held := f :: (s.snap i).held })
     else none
+  | .env df dv =>
+    -- every counter update of another family happens while it holds the version-set mutex, i.e.
+    -- while no job of this family is between `jLock` and `jUnlock`; steps of this family that do
+    -- not take the mutex read neither counter, so the other family's critical sections commute
+    -- with them and are collected into one step here.
+    if s.lock = none then some (envBump s df dv) else none
 
 def run (cfg : Cfg) (s : St) : List Act → Option St
   | [] => some s
@@ -654,6 +684,17 @@ def cacheGetReader : List String :=
   ["mutex.Lock", "defer:mutex.Unlock", "cache.Get", "entry.retain", "newMMapStoreReaderFunc", "entry.retain", "cache.Add"]
 /-- `storeCache.Cleanup` closes only entries with `ref == 0` (and expired) -/
 def cacheCleanupGuard : List String := ["ref-zero", "expired"]
+/-- `LRUCache.Walk` (what `lruWalk` of Model/TableCache.lean mirrors): inspect the BACK of the list,
+remove while the callback accepts, stop (`break`) at the first entry it rejects -/
+def lruWalkShape : List String := ["for", "evictList.Back", "fn", "c.removeElement", "break"]
+/-- the counters `Act.env` moves are the store's, not the family's -/
+def sharedCounters : List String := ["storeVersionSet.nextFileNumber", "storeVersionSet.versionID"]
+def newVersionID : List String := ["versionID.Add"]
+/-- the cache is keyed by the file name alone: entries of different families never alias because
+table numbers are store-unique (`cref` of this model = the entries with this family's numbers) -/
+def cacheKeys : List String :=
+  ["GetReader:Get(fileName)", "GetReader:Add(fileName)", "ReleaseReaders:Get(r.FileName())", "Evict:Get(fileName)",
+   "Evict:Remove(fileName)"]
 
 end Code
 
